@@ -182,7 +182,7 @@ impl Check for RwaReal {
                     if x { m.hooks.get_mut(hook).unwrap().retain(|y| y != k); }
                     outcome = Some(("remove_module_from", g, x));
                 }
-                Step::Script { m: k, ct, cc: c2 } => { ModuleClient::new(e, &mods[*k]).script(ct, c2); m.ct.insert(*k, *ct); m.cc.insert(*k, *c2); }
+                Step::Script { m: k, ct, cc: c2 } => { st.hit("collab.module_scripted"); ModuleClient::new(e, &mods[*k]).script(ct, c2); m.ct.insert(*k, *ct); m.cc.insert(*k, *c2); }
                 Step::Bind { on } => {
                     let g = if *on { cc.try_bind(&tok).is_ok() } else { cc.try_unbind(&tok).is_ok() };
                     let x = *on != m.bound;
